@@ -704,15 +704,21 @@ func (w *world) files() string {
 		if u == nil {
 			continue
 		}
-		b, err := os.ReadFile(filepath.Join(w.A.UnitsDir(), name, "status"))
-		if err != nil {
-			continue
-		}
+		// the daemon rewrites the record in place (truncate, then write) whenever the remote
+		// status is polled: an empty or partial read is retried
 		var st map[string]interface{}
-		if json.Unmarshal(b, &st) != nil {
-			continue
+		var v view
+		ok := false
+		for try := 0; try < 100 && !ok; try++ {
+			b, err := os.ReadFile(filepath.Join(w.A.UnitsDir(), name, "status"))
+			if err == nil && json.Unmarshal(b, &st) == nil {
+				v, ok = viewOf(st)
+			}
+			if !ok {
+				w.im.Hist("disk:status-file-read-retried")
+				time.Sleep(5 * time.Millisecond)
+			}
 		}
-		v, ok := viewOf(st)
 		if !ok {
 			continue
 		}
